@@ -1,5 +1,6 @@
 import Mathlib.Tactic.FinCases
 import TapkeeVerif.Proofs.TsneBhGrad
+import TapkeeVerif.Proofs.QuadTreeTwins
 /-!
 C17, Barnes–Hut gradient, part 3: `bhGradient` with its loops resolved, `θ = 0` ⇒ the exact gradient, small `θ` ⇒ the
 `θ = 0` result, and enough fuel exists.
@@ -133,10 +134,10 @@ theorem grad_algebra {N : Nat} (P q dy : Fin N → K) (n : Fin N) (hdy : dy n = 
   congr 1
   exact Finset.sum_congr rfl fun m _ => by ring
 
-theorem sumQ_eq (N : Nat) (Y : Array K) :
-    0 + ((List.range N).map (sumQOf N (dataOf N Y))).sum =
+theorem sumQ_eq (N : Nat) (Y : Array K) (δ : Nat → K) (hδ : ((List.range N).map δ).sum = 0) :
+    0 + ((List.range N).map fun n => sumQOf N (dataOf N Y) n + δ n).sum =
       ∑ a : Fin N, ∑ c : Fin N, if a = c then 0 else qOf (dataOf N Y) a.1 c.1 := by
-  rw [zero_add, sum_range_fin]
+  rw [zero_add, List.sum_map_add, hδ, add_zero, sum_range_fin]
   refine Finset.sum_congr rfl fun a _ => ?_
   unfold sumQOf
   rw [sum_range_fin]
@@ -148,17 +149,18 @@ theorem sumQ_eq (N : Nat) (Y : Array K) :
     simp [h, this]
 
 /-- **`bhGradient (θ = 0)` is the exact gradient**, cell by cell -/
-theorem bhResult_zero_getD (fuel N : Nat) (eps : K) (heps : 0 ≤ eps) (c : Csr K) (h : WFc N c) (Y : Array K)
-    (hd : DistinctMap N Y) (tree : QuadTree.Tree K)
-    (hb : buildIn (dataOf N Y) fuel (rootOf eps N Y) (List.range N) = some tree) (n : Fin N) (d : Fin 2) :
+theorem bhResult_zero_getD_of (N : Nat) (c : Csr K) (h : WFc N c) (Y : Array K) (tree : QuadTree.Tree K)
+    (δ : Nat → K) (hδ : ((List.range N).map δ).sum = 0)
+    (hf : ∀ n ∈ List.range N, ∀ acc : QuadTree.Acc K, forces (dataOf N Y) 0 n tree acc =
+      ((acc.1.1 + negX N (dataOf N Y) n, acc.1.2 + negY N (dataOf N Y) n),
+        acc.2 + sumQOf N (dataOf N Y) n + δ n)) (n : Fin N) (d : Fin 2) :
     (bhResult N 0 c Y tree).getD (n.1 * 2 + d.1) 0 = exactGradientSpec (csrMat N c) (mapOf N Y) n d := by
-  have hf := forces_zero_range fuel N eps heps Y hd tree hb
   unfold bhResult
   rw [combineLoop_getD _ _ _ _ _ (by have := n.2; have := d.2; omega)]
-  rw [posF_getD N c h (dataOf N Y) n.1 d.1 n.2 d.2, nonEdgeLoop_zero N (dataOf N Y) tree hf]
+  rw [posF_getD N c h (dataOf N Y) n.1 d.1 n.2 d.2, nonEdgeLoop_zero N (dataOf N Y) tree δ (List.range N) hf]
   simp only
   rw [foldl_addAt N (fun x : Nat => x) (negX N (dataOf N Y)) (negY N (dataOf N Y)) (List.range N) _ (by simp)
-    (fun x hx => List.mem_range.1 hx) n.1 d.1 d.2, getD_replicate_zero, zero_add, sum_range_ite N n.1 _ n.2, sumQ_eq]
+    (fun x hx => List.mem_range.1 hx) n.1 d.1 d.2, getD_replicate_zero, zero_add, sum_range_ite N n.1 _ n.2, sumQ_eq N Y δ hδ]
   simp only [exactGradientSpec, exactGradientOf, sumFin_eq_sum, qOf_eq]
   have hdn : dataOf N Y n.1 = ptOf Y n.1 := dataOf_lt N Y n.1 n.2
   have hdm : ∀ m : Fin N, dataOf N Y m.1 = ptOf Y m.1 := fun m => dataOf_lt N Y m.1 m.2
@@ -181,6 +183,98 @@ theorem bhResult_zero_getD (fuel N : Nat) (eps : K) (heps : 0 ≤ eps) (c : Csr 
     rw [this]
     refine Finset.sum_congr rfl fun m _ => ?_
     simp [csrMat, mapOf, hdn, hdm, ptOf]
+
+/-- … for a map without coincident points (through C18's per-point exactness) -/
+theorem bhResult_zero_getD (fuel N : Nat) (eps : K) (heps : 0 ≤ eps) (c : Csr K) (h : WFc N c) (Y : Array K)
+    (hd : DistinctMap N Y) (tree : QuadTree.Tree K)
+    (hb : buildIn (dataOf N Y) fuel (rootOf eps N Y) (List.range N) = some tree) (n : Fin N) (d : Fin 2) :
+    (bhResult N 0 c Y tree).getD (n.1 * 2 + d.1) 0 = exactGradientSpec (csrMat N c) (mapOf N Y) n d := by
+  have hf := forces_zero_range fuel N eps heps Y hd tree hb
+  refine bhResult_zero_getD_of N c h Y tree (fun _ => 0) (by simp) (fun m _ acc => ?_) n d
+  rw [hf m acc, foldl_fstep_range]
+
+/-! ### θ = 0, every map (coincident points included) -/
+
+theorem acc_sum_components {α : Type} (g : α → QuadTree.Acc K) : ∀ l : List α,
+    ((l.map g).sum).1.1 = (l.map fun x => (g x).1.1).sum ∧ ((l.map g).sum).1.2 = (l.map fun x => (g x).1.2).sum ∧
+    ((l.map g).sum).2 = (l.map fun x => (g x).2).sum := by
+  intro l
+  induction l with
+  | nil => exact ⟨rfl, rfl, rfl⟩
+  | cons a l ih =>
+    simp only [List.map_cons, List.sum_cons, Prod.fst_add, Prod.snd_add, ih.1, ih.2.1, ih.2.2]
+    trivial
+
+theorem sum_one_sub (f : Nat → Nat) : ∀ l : List Nat,
+    (l.map fun n => (1 : K) - (f n : K)).sum = (l.length : K) - (((l.map f).sum : Nat) : K) := by
+  intro l
+  induction l with
+  | nil => simp
+  | cons a l ih =>
+    simp only [List.map_cons, List.sum_cons, ih, List.length_cons, Nat.cast_add, Nat.cast_one]
+    ring
+
+/-- for EVERY map the tree returns, for a query `n < N`, the exact force sums and `sum_Q` up to `1 − corr n tree` -/
+theorem forces_zero_all (fuel N : Nat) (eps : K) (heps : 0 ≤ eps) (Y : Array K) (tree : QuadTree.Tree K)
+    (hb : buildIn (dataOf N Y) fuel (rootOf eps N Y) (List.range N) = some tree) :
+    ∀ n ∈ List.range N, ∀ acc : QuadTree.Acc K, forces (dataOf N Y) 0 n tree acc =
+      ((acc.1.1 + negX N (dataOf N Y) n, acc.1.2 + negY N (dataOf N Y) n),
+        acc.2 + sumQOf N (dataOf N Y) n + (1 - ((corr n tree : Nat) : K))) := by
+  intro n hn acc
+  obtain ⟨hwf, -⟩ := buildIn_WF (dataOf N Y) fuel (rootOf eps N Y) (List.range N) tree hb
+  rw [forces_zero_general (dataOf N Y) n tree _ hwf acc, acceptedPts_eq, accepted_all N eps heps Y, List.map_map]
+  obtain ⟨c1, c2, c3⟩ := acc_sum_components (stTerm (dataOf N Y n) ∘ dataOf N Y) (List.range N)
+  have e1 : (List.range N).map (fun x => ((stTerm (dataOf N Y n) ∘ dataOf N Y) x).1.1) =
+      (List.range N).map fun j => if j = n then 0 else
+        qOf (dataOf N Y) n j * qOf (dataOf N Y) n j * ((dataOf N Y n).1 - (dataOf N Y j).1) := by
+    apply List.map_congr_left
+    intro j _
+    by_cases h : j = n
+    · subst h; simp [stTerm]
+    · simp [h, stTerm, qOf]
+  have e2 : (List.range N).map (fun x => ((stTerm (dataOf N Y n) ∘ dataOf N Y) x).1.2) =
+      (List.range N).map fun j => if j = n then 0 else
+        qOf (dataOf N Y) n j * qOf (dataOf N Y) n j * ((dataOf N Y n).2 - (dataOf N Y j).2) := by
+    apply List.map_congr_left
+    intro j _
+    by_cases h : j = n
+    · subst h; simp [stTerm]
+    · simp [h, stTerm, qOf]
+  have e3 : (List.range N).map (fun x => ((stTerm (dataOf N Y n) ∘ dataOf N Y) x).2) =
+      (List.range N).map fun j => (if j = n then 0 else qOf (dataOf N Y) n j) + (if n = j then 1 else 0) := by
+    apply List.map_congr_left
+    intro j _
+    by_cases h : j = n
+    · subst h; simp [stTerm, sqNorm]
+    · have h' : ¬ n = j := fun e => h e.symm
+      simp [h, h', stTerm, qOf]
+  rw [e1] at c1
+  rw [e2] at c2
+  rw [e3, List.sum_map_add, sum_range_ite N n (fun _ => (1 : K)) (List.mem_range.1 hn)] at c3
+  refine Prod.ext (Prod.ext ?_ ?_) ?_
+  · simp only [Prod.fst_add, Prod.fst_sub, c1, negX]; ring
+  · simp only [Prod.fst_add, Prod.snd_add, Prod.fst_sub, Prod.snd_sub, c2, negY]; ring
+  · simp only [Prod.snd_add, Prod.snd_sub, c3, sumQOf]; ring
+
+theorem corr_sum_zero (fuel N : Nat) (eps : K) (heps : 0 ≤ eps) (Y : Array K) (tree : QuadTree.Tree K)
+    (hb : buildIn (dataOf N Y) fuel (rootOf eps N Y) (List.range N) = some tree) :
+    ((List.range N).map fun n => (1 : K) - ((corr n tree : Nat) : K)).sum = 0 := by
+  obtain ⟨hwf, -⟩ := buildIn_WF (dataOf N Y) fuel (rootOf eps N Y) (List.range N) tree hb
+  have hsub : ∀ r ∈ allIndices tree, r ∈ List.range N := by
+    intro r hr
+    have := stored_accepted (dataOf N Y) fuel (rootOf eps N Y) (List.range N) tree hb r hr
+    rwa [accepted_all N eps heps Y] at this
+  have ht := corr_total (dataOf N Y) tree _ hwf (List.range N) List.nodup_range hsub
+  rw [acceptedPts_eq, accepted_all N eps heps Y, List.length_map, List.length_range] at ht
+  rw [sum_one_sub, ht, List.length_range, sub_self]
+
+/-- **`bhGradient (θ = 0)` is the exact gradient for every map**, cell by cell -/
+theorem bhResult_zero_getD_all (fuel N : Nat) (eps : K) (heps : 0 ≤ eps) (c : Csr K) (h : WFc N c) (Y : Array K)
+    (tree : QuadTree.Tree K) (hb : buildIn (dataOf N Y) fuel (rootOf eps N Y) (List.range N) = some tree)
+    (n : Fin N) (d : Fin 2) :
+    (bhResult N 0 c Y tree).getD (n.1 * 2 + d.1) 0 = exactGradientSpec (csrMat N c) (mapOf N Y) n d :=
+  bhResult_zero_getD_of N c h Y tree (fun n => 1 - ((corr n tree : Nat) : K))
+    (corr_sum_zero fuel N eps heps Y tree hb) (forces_zero_all fuel N eps heps Y tree hb) n d
 
 /-! ### small θ -/
 
